@@ -1,0 +1,60 @@
+//go:build verif
+
+// Machine-checked contracts for package encrypted_leaseset (comment-only file;
+// never compiled into the library).  Read by /verif/engine (gvc).
+
+package encrypted_leaseset
+
+//@ import i2pd "github.com/go-i2p/common/data"
+//@ import "github.com/go-i2p/common/offline_signature"
+//@ import sig "github.com/go-i2p/common/signature"
+
+//@ spec func be32(v uint32) []byte { return []byte{byte(v >> 24), byte(v >> 16), byte(v >> 8), byte(v)} }
+//@ spec func be16(v uint16) []byte { return []byte{byte(v >> 8), byte(v)} }
+
+// Wire image without the trailing signature, field by field from the specification:
+// sigtype(2) blinded key, published(4) expires(2) flags(2) [offline signature] len(2) inner data.
+//@ spec func ELSOffBytes(els *EncryptedLeaseSet) []byte {
+//@   if els.offlineSignature != nil { return offline_signature.OffWire(els.offlineSignature) }
+//@   return nil
+//@ }
+//@ spec func ELSContent(els *EncryptedLeaseSet) []byte {
+//@   return cat(be16(els.sigType), els.blindedPublicKey, be32(els.published), be16(els.expires), be16(els.flags), ELSOffBytes(els), be16(els.innerLength), els.encryptedInnerData)
+//@ }
+
+//@ spec func ELSInv(els *EncryptedLeaseSet) bool {
+//@   return els != nil && len(els.blindedPublicKey) == i2pd.SpecSigPubLen(int(els.sigType)) && (els.offlineSignature == nil || offline_signature.OffInv(els.offlineSignature))
+//@ }
+
+//@ contract (els *EncryptedLeaseSet) bytesWithoutSignature() (b []byte, err error)
+//@   requires els != nil
+//@   ensures fresh(b) && err == nil
+//@   ensures @C01 @C02 @C05 @C06 seqeq(b, ELSContent(els))
+//@   modifies nothing
+
+//@ contract (els *EncryptedLeaseSet) dataForSigning() (b []byte, err error)
+//@   requires els != nil
+//@   ensures fresh(b) && err == nil
+//@   ensures @C05 @C06 seqeq(b, cat([]byte{ENCRYPTED_LEASESET_DBSTORE_TYPE}, ELSContent(els)))
+//@   modifies nothing
+
+//@ contract (els *EncryptedLeaseSet) Bytes() (b []byte, err error)
+//@   requires els != nil
+//@   ensures fresh(b) && err == nil
+//@   ensures @C01 @C02 seqeq(b, cat(ELSContent(els), sig.SigData(els.signature)))
+//@   modifies nothing
+
+// ---- C05: Verify() == nil means: the signature is valid under the transient
+// key (offline keys) or the blinded key, over 0x05 || content; and with offline
+// keys the blinded key has signed the transient key.
+//@ spec func ELSOffline(els *EncryptedLeaseSet) bool { return els.flags&ENCRYPTED_LEASESET_FLAG_OFFLINE_KEYS != 0 && els.offlineSignature != nil }
+//@ spec func ELSSigKey(els *EncryptedLeaseSet) []byte {
+//@   if ELSOffline(els) { return offline_signature.OffKey(els.offlineSignature) }
+//@   return els.blindedPublicKey
+//@ }
+
+//@ contract (els *EncryptedLeaseSet) Verify() (err error)
+//@   requires ELSInv(els)
+//@   ensures @C05 err == nil ==> sigvalid(ELSSigKey(els), cat([]byte{ENCRYPTED_LEASESET_DBSTORE_TYPE}, ELSContent(els)), sig.SigData(els.signature))
+//@   ensures @C05 err == nil && ELSOffline(els) ==> sigvalid(els.blindedPublicKey, offline_signature.OffSignedData(els.offlineSignature), offline_signature.OffSig(els.offlineSignature))
+//@   modifies nothing
